@@ -61,8 +61,10 @@ def gen_series(rng, it, tier):
            2 ** 31 + 30 * 86400, 4102444800, 8836000000, -2524521600,
            10413792000, -11676096000,             # ... 2300 and 1600: beyond what a
            # nanosecond index can hold (only the s / ms / us storage units reach them)
-           -5206032000, 6942240000][it % 15]      # 1805 and 2190: inside that range, but
-    # where the nanosecond count no longer fits the 53 bits of a double
+           -5206032000, 6942240000,              # 1805 and 2190: inside that range, but
+           # where the nanosecond count no longer fits the 53 bits of a double
+           -3600, -7200][it % 17]                # the last hours of 1969: the origin of the
+    # periods is the epoch itself (second number 0) or the hour before
     era = (era // 3600) * 3600
     t = era + (int(rng.integers(0, 400)) * 86400 if era == T0 else 0) + \
         int(rng.integers(0, 24 if era == T0 else 2)) * 3600 + first
@@ -141,7 +143,15 @@ def build_series(stamps, vals, unit, tz, vdtype="f8"):
     import pandas as pd
     idx = pd.DatetimeIndex(np.asarray(stamps, dtype="int64").astype("datetime64[s]"))
     idx = idx.as_unit(unit)
-    if tz == "utc":
+    if tz in DST_ZONES:
+        # the stamps are wall-clock times of a zone with daylight saving: each is
+        # localised on its own (an hour that occurs twice is taken the second time, as
+        # standard time)
+        import pandas as _pd
+        idx = _pd.DatetimeIndex([_pd.Timestamp(t).tz_localize(tz, ambiguous=False,
+                                                              nonexistent="shift_forward")
+                                 for t in idx]).as_unit(unit)
+    elif tz == "utc":
         idx = idx.tz_localize("UTC")
     elif tz == "+10":
         import datetime as dtm
@@ -152,6 +162,9 @@ def build_series(stamps, vals, unit, tz, vdtype="f8"):
     elif vdtype == "i8" and np.all(np.isfinite(v)) and np.all(v == np.round(v)):
         v = v.astype(np.int64)
     return pd.Series(v, index=idx, name="flow")
+
+
+DST_ZONES = ("Australia/Sydney", "America/New_York")
 
 
 PROCESS_TZ = [None, "America/New_York", None, "Australia/Brisbane", None, "Asia/Kolkata"]
@@ -258,8 +271,20 @@ def run_case(ctx, case):
                 ctx.reuse("var2h", lambda: call(se, P, maxgap, rainfall).values, [],
                           out.values.copy(), case)
         else:
-            same = len(osec) == len(base[0]) and np.array_equal(osec, base[0]) and \
-                bool(np.all((ov == base[1]) | (np.isnan(ov) & np.isnan(base[1]))))
+            if tz in DST_ZONES and len(osec) != len(base[0]):
+                # (across a daylight-saving change the elapsed time and the wall-clock
+                # span of the record differ by an hour: the output may carry that many
+                # more - or fewer - periods at its end)
+                # (the last period of the shorter output is its unconstrained final one)
+                k_ = min(len(osec), len(base[0])) - 1
+                ctx.extra["dst-record-length-differs"] += 1
+                same = abs(len(osec) - len(base[0])) * int(case["P"]) <= 3600 and \
+                    np.array_equal(osec[:k_], base[0][:k_]) and \
+                    bool(np.all((ov[:k_] == base[1][:k_]) |
+                                (np.isnan(ov[:k_]) & np.isnan(base[1][:k_]))))
+            else:
+                same = len(osec) == len(base[0]) and np.array_equal(osec, base[0]) and \
+                    bool(np.all((ov == base[1]) | (np.isnan(ov) & np.isnan(base[1]))))
             key = "unit" if tz == base[3] else "timezone"
             ctx.check("var2h.storage-independent", same,
                       f"var2h|depends-on-{key}", case,
@@ -339,6 +364,28 @@ def run(ctx):
         run_case(ctx, case)
         if it0 % 20 == 0:
             ctx.sample(case)
+        if it0 % 10 == 7:
+            # a record kept in the wall-clock time of a zone with daylight saving, whose
+            # first observation falls in the hour that occurs twice when it ends (or
+            # just around it): same period averages as the same stamps without a zone
+            import pandas as _pd
+            zone, day = [("Australia/Sydney", "2021-04-04 02:"),
+                         ("America/New_York", "2019-11-03 01:"),
+                         ("Australia/Sydney", "2021-04-04 01:"),
+                         ("America/New_York", "2019-11-03 02:")][(it // 10) % 4]
+            t0_ = int(_pd.Timestamp(day + "%02d:00" % int(rng.integers(0, 60))).value
+                      // 10 ** 9)
+            st_ = t0_ + np.concatenate([[0], np.cumsum(rng.choice([600, 1800, 3600, 5000],
+                                                                  size=25))])
+            # (keep the later stamps clear of the repeated hour)
+            st_[1:] = np.maximum(st_[1:], t0_ + 2 * 3600 + 60)
+            st_ = np.maximum.accumulate(st_)
+            vl_ = rng.integers(0, 40, size=len(st_)) / 4.0
+            ctx.tag("tz:daylight-saving-zone")
+            run_case(ctx, {"kind": "var2h", "stamps": st_, "values": vl_, "P": P,
+                           "maxgapsec": 5 * 86400, "rainfall": rainfall,
+                           "variants": [["ns", "naive"], ["ns", zone], ["s", zone],
+                                        ["us", "utc"]]})
         if it0 % 25 == 3:
             j = it // 25
             run_long_span(ctx, {"kind": "longspan", "seed": int(rng.integers(0, 2 ** 31)),
